@@ -23,6 +23,9 @@ func genC09(r *simrt.Rand, tier string) *simrt.Plan {
 	if r.Bool(0.2) {
 		return genC09Keys(r)
 	}
+	if m := simrt.Mode("C09", 2); m != nil && r.Bool(0.3) {
+		return m.Gen(r, tier) // whole-node crash images (harness in the external test package)
+	}
 	kind := simrt.Pick(r, l2Set, l2Set, l2Mutex, l2Bool, l2Int, l2Int)
 	g := newL2Gen(r, kind)
 	g.enabled = map[string]bool{"__uniquecols": true}
